@@ -4,6 +4,6 @@ MCN == {2, 3, 4, 5}
 MCGaps(n) == IF n <= 4 THEN {1, 2, 3} ELSE {1, 2}
 MCYs(n) == IF n <= 3 THEN {-3, -1, 0, 1, 2} ELSE IF n = 4 THEN {-3, 0, 2} ELSE {-2, 1}
 MCY2(n) == {[i \in 1..n |-> IF i = j THEN 1 ELSE 0] : j \in 1..n} \cup {[i \in 1..n |-> i * i - 3]}
-MCOff == {-1, 2}
-MCMul == {-2, 3}
+MCOff(n) == IF n <= 3 THEN {-1, 2} ELSE {-1}
+MCMul == {3}
 ====
